@@ -247,7 +247,10 @@ def _member(d: Any, cls: str, v: Any) -> str | None:
         # scale back) carries the rounding of several operations at the magnitude of the bounds:
         # up to ~10 ulps were observed on the unchanged tree; 16 ulps of the largest magnitude
         # involved is still 1e-9 of any step this generator produces
-        tol = 16 * Fraction(math.ulp(max(abs(d.low), abs(d.high), abs(v))))
+        # (19 ulps on a grid of 150 cells near 260: the error grows with the number of cells;
+        # a billionth of a step -- a tenth of optuna's own `_contains` slack -- covers that without
+        # hiding anything a user could see)
+        tol = max(16 * Fraction(math.ulp(max(abs(d.low), abs(d.high), abs(v)))), Fraction(d.step) / 10**9)
         if err > tol:
             return f"off the step grid by {float(err):.3g}"
     return None
